@@ -117,14 +117,14 @@ def run(ctx, P):
     base_lines, base_calcs = work[0]
     for n, (ln, cc) in zip(lengths[1:], work[1:]):
         # slack covers value-dependent branches on the concrete part of the history (smoothed state differs slightly)
-        ctx.require(f"lines(append at n0+{n - lengths[0]}) <= lines(n0)+slack", ln <= base_lines + SLACK_LINES + base_lines // 4, f"n0={lengths[0]}: {base_lines} lines; n={n}: {ln} lines")
-        ctx.require(f"calculations(append at n0+{n - lengths[0]}) <= calculations(n0)", cc <= base_calcs + 2, f"n0: {base_calcs} _calculate_reading calls; n={n}: {cc}")
+        ctx.require(f"lines(append at n0+{n - lengths[0]}) <= lines(n0)+slack", ln <= base_lines + SLACK_LINES, f"n0={lengths[0]}: {base_lines} lines; n={n}: {ln} lines")
+        ctx.require(f"calculations(append at n0+{n - lengths[0]}) <= calculations(n0)", cc <= base_calcs + 1, f"n0: {base_calcs} _calculate_reading calls; n={n}: {cc}")
 
 
 META = dict(
     bounds=dict(quick="every catalogue indicator and analysis wrapper standalone + two Hexitals of three; append measured at history length n0 (>= warm-up+4) and n0+8, n0+24; last 2 history candles (Supertrend 1, ADX 0) and the appended candle symbolic, shared by all lengths, earlier history = tests/data/test_candles.json",
                 thorough="n0+8, +24, +64, +160"),
     stubs=["work = executed lines / _calculate_reading calls in hexital/{indicators,analysis,utils}, core/indicator.py, core/hexital.py, counted by sys.settrace during the real append; candle_manager.py excluded (its collapse pass is outside the property's observation point)"],
-    assumptions=["the unbounded 'for all n' is not claimed: a regression that rescans or recomputes history grows by >= 2 lines per candle and exceeds the slack (12 lines + 25%) inside the bound", "older history is concrete: work depends on values only through branches on recent candles"],
+    assumptions=["the unbounded 'for all n' is not claimed: a regression that rescans or recomputes history grows by >= 2 lines per candle and exceeds the slack (12 lines; measured variation between lengths is <= 4 lines) inside the bound", "older history is concrete: work depends on values only through branches on recent candles"],
     explanation="the solver's role is path completeness: the bound holds on every feasible branch pattern of the symbolic candles, not on sampled values",
 )
